@@ -1,7 +1,27 @@
 """C14 — seeding backward; shape/dtype of every stored gradient."""
 import ast
 
+import json
+import os
+import subprocess
+
 from lib.checkdef import default_replay_cmd, run_property
+from lib.report import REPO, VENV_PY, VERIF
+
+_memo = {}
+
+
+def _replay(rep, r):
+    if "C14.seed" not in r.name:
+        return None, False, None
+    if "out" not in _memo:
+        env = dict(os.environ, PYTHONPATH=os.path.join(REPO, "src") + os.pathsep + VERIF)
+        p = subprocess.run([VENV_PY, os.path.join(VERIF, "runtime", "c14_replay.py")], capture_output=True, text=True, env=env, timeout=300)
+        lines = [l for l in p.stdout.splitlines() if l.startswith("{")]
+        _memo["out"] = json.loads(lines[-1]) if lines else dict(confirmed=False, note=p.stderr[-300:])
+    out = _memo["out"]
+    path = rep.write_replay(r.name, dict(obligation=r.to_json(), solver_output=r.model, confirmed=out.get("confirmed", False), replay=out))
+    return path, out.get("confirmed", False), out
 from pyvc import frontend
 
 # writers of `_grad` that are under a contract (deductive or bounded); anything else found by the scan is "unverified writer"
@@ -60,6 +80,7 @@ def run(tier, seed):
         deductive=[("c01_step", r"C14\.I1"), ("c01_rb", r"result_shape|result_is_ndarray|result_rank"), ("c14_seed", r"^C14\.seed.*\.(I1|ones|value_of_g|rejected|no_backprop|collect|nonconstant|constant_receiver)")],
         enumerations=[scan_writers],
         bounded=[("graph_bounded.py", ["--check", "C14"])],
+        replay=_replay,
         trusted=["pyvc/graphdom.py NumPy axioms", "contract of reduce_broadcast (discharged in c01_rb)"],
         assumptions=[
             "I1 (type/shape/dtype) is proved for Operation.backward and its helper; the seed path of Tensor.backward and the GRU writers are bounded",
